@@ -146,6 +146,7 @@ impl<'a, L> Engine<'a, L> {
         for inode in list_seeds {
             self.mark_list_node(inode);
         }
+        self.unmark_unreachable_list_nodes();
         // check that candidate compound literals are indeed compound literels
         if self.options.rdf_direction() == Some(RdfDirection::CompoundLiteral) {
             let mut compound_literals = std::mem::take(&mut self.compound_literals);
@@ -206,6 +207,32 @@ impl<'a, L> Engine<'a, L> {
                 }
             }
         }
+    }
+
+    /// Lists nested in each other (through rdf:first) in a cycle
+    /// are not reachable from any node that is rendered directly,
+    /// so their nodes must be rendered directly.
+    fn unmark_unreachable_list_nodes(&mut self) {
+        let mut reachable = HashSet::new();
+        let mut stack: Vec<usize> = (0..self.node.len())
+            .filter(|inode| !self.list_node.contains_key(&self.gs_id[*inode].1))
+            .collect();
+        while let Some(inode) = stack.pop() {
+            for (key, objs) in &self.node[inode] {
+                if key.as_ref() == "@graph" {
+                    continue;
+                }
+                for obj in objs {
+                    if let RdfObject::Node(inode2, id) = obj {
+                        if self.list_node.contains_key(id) && reachable.insert(id.as_ref()) {
+                            stack.push(*inode2);
+                        }
+                    }
+                }
+            }
+        }
+        self.list_node
+            .retain(|id, _| reachable.contains(id.as_ref()));
     }
 
     fn jsonify(
